@@ -41,7 +41,7 @@ pub const M_OTHER: u32 = 23;
 
 pub const E_OP: u32 = 100; // a = kind, b = lock id
 pub const E_RES: u32 = 101; // a = kind, b = result (try) / 1
-pub const E_WAIT: u32 = 102; // a = lock id, b = held mask (x | s<<8)
+pub const E_WAIT: u32 = 102; // a = lock id | mode << 8 (0 exclusive, 1 shared), b = held_x | held_s << 16
 pub const E_FAULT: u32 = 103; // a = kind, b = lock id
 pub const E_USER_PANIC: u32 = 104; // a = site
 pub const E_BAD_RELEASE: u32 = 105;
@@ -160,6 +160,9 @@ pub mod eng {
 	}
 	// everything is printed eagerly (stdout is line buffered) so that an abort keeps the trace
 	pub fn any_u8(tag: u32) -> u8 {
+		if mt::on() {
+			return mt::next_input(tag);
+		}
 		let mut r = st();
 		let c = r.cursor;
 		r.cursor = c + 1;
@@ -184,9 +187,224 @@ pub mod eng {
 		println!("EV {} {} {}", code, a, b);
 	}
 	pub fn check_fn(c: bool, code: u32) {
-		if !c {
+		if !c && !mt::on() {
 			println!("EV 999 {} 0", code);
 			println!("VIOLATED {}", code);
+		}
+	}
+
+	/// Multi-thread replay of a deadlock candidate: real OS threads run the real acquisition code, one at a
+	/// time (baton passing); lock state is a global table indexed by lock id, so that every thread's own
+	/// lock objects denote the shared locks.  A thread that cannot acquire parks; when every unfinished
+	/// thread is parked and none can proceed, the state is a deadlock.
+	pub mod mt {
+		use std::cell::{Cell, RefCell};
+		use std::sync::atomic::{AtomicBool, Ordering};
+		use std::sync::{Condvar, Mutex, MutexGuard};
+		pub static ON: AtomicBool = AtomicBool::new(false);
+		pub struct St {
+			pub xowner: [i32; 32],
+			pub readers: [u32; 32],
+			pub turn: i32,
+			pub parked: [i32; 8],
+			pub parked_shared: [bool; 8],
+			pub at_breakpoint: [bool; 8],
+			pub finished: [bool; 8],
+			pub breakpoint: [i32; 8],
+			pub bp_done: [bool; 8],
+		}
+		pub static ST: Mutex<St> = Mutex::new(St {
+			xowner: [-1; 32],
+			readers: [0; 32],
+			turn: -1,
+			parked: [-1; 8],
+			parked_shared: [false; 8],
+			at_breakpoint: [false; 8],
+			finished: [false; 8],
+			breakpoint: [-1; 8],
+			bp_done: [false; 8],
+		});
+		pub static CV: Condvar = Condvar::new();
+		thread_local! {
+			pub static TID: Cell<i32> = Cell::new(-1);
+			pub static INPUTS: RefCell<(Vec<(u32, u8)>, usize)> = RefCell::new((Vec::new(), 0));
+		}
+		pub fn on() -> bool {
+			ON.load(Ordering::SeqCst)
+		}
+		fn lock_st() -> MutexGuard<'static, St> {
+			match ST.lock() {
+				Ok(g) => g,
+				Err(p) => p.into_inner(),
+			}
+		}
+		/// next recorded input with this tag (answers of the single-thread environment are skipped)
+		pub fn next_input(tag: u32) -> u8 {
+			INPUTS.with(|c| {
+				let mut c = c.borrow_mut();
+				while c.1 < c.0.len() {
+					let (t, v) = c.0[c.1];
+					c.1 += 1;
+					if t == tag {
+						return v;
+					}
+				}
+				0
+			})
+		}
+		fn can_take(st: &St, id: usize, shared: bool, tid: i32) -> bool {
+			if shared {
+				st.xowner[id] < 0
+			} else {
+				st.xowner[id] < 0 && (st.readers[id] & !(1u32 << tid)) == 0 && st.readers[id] == 0
+			}
+		}
+		fn park(mut g: MutexGuard<'static, St>, tid: i32, id: i32, shared: bool, bp: bool) -> MutexGuard<'static, St> {
+			g.parked[tid as usize] = id;
+			g.parked_shared[tid as usize] = shared;
+			g.at_breakpoint[tid as usize] = bp;
+			g.turn = -1;
+			CV.notify_all();
+			while g.turn != tid {
+				g = match CV.wait(g) {
+					Ok(x) => x,
+					Err(p) => p.into_inner(),
+				};
+			}
+			g.parked[tid as usize] = -1;
+			g.at_breakpoint[tid as usize] = false;
+			g
+		}
+		pub fn acquire(id: u8, shared: bool) {
+			let tid = TID.with(|t| t.get());
+			let i = id as usize & 31;
+			let mut g = lock_st();
+			if g.breakpoint[tid as usize] == id as i32 && !g.bp_done[tid as usize] {
+				g.bp_done[tid as usize] = true;
+				g = park(g, tid, id as i32, shared, true);
+			}
+			loop {
+				if can_take(&g, i, shared, tid) {
+					if shared {
+						g.readers[i] |= 1u32 << tid;
+					} else {
+						g.xowner[i] = tid;
+					}
+					println!("MT thread {} acquired {} {}", tid, id, if shared { "S" } else { "X" });
+					return;
+				}
+				println!("MT thread {} blocks on {} {}", tid, id, if shared { "S" } else { "X" });
+				g = park(g, tid, id as i32, shared, false);
+			}
+		}
+		pub fn try_acquire(id: u8, shared: bool) -> bool {
+			let tid = TID.with(|t| t.get());
+			let i = id as usize & 31;
+			let mut g = lock_st();
+			if can_take(&g, i, shared, tid) {
+				if shared {
+					g.readers[i] |= 1u32 << tid;
+				} else {
+					g.xowner[i] = tid;
+				}
+				true
+			} else {
+				false
+			}
+		}
+		pub fn release(id: u8, shared: bool) {
+			let tid = TID.with(|t| t.get());
+			let i = id as usize & 31;
+			let mut g = lock_st();
+			if shared {
+				g.readers[i] &= !(1u32 << tid);
+			} else if g.xowner[i] == tid {
+				g.xowner[i] = -1;
+			}
+		}
+		/// controller: returns true if the threads end in a deadlock
+		pub fn run(specs: Vec<(fn(), Vec<(u32, u8)>, i32)>) -> bool {
+			ON.store(true, Ordering::SeqCst);
+			let n = specs.len();
+			{
+				let mut g = lock_st();
+				for (t, s) in specs.iter().enumerate() {
+					g.breakpoint[t] = s.2;
+				}
+			}
+			for (t, (f, inputs, _bp)) in specs.into_iter().enumerate() {
+				std::thread::spawn(move || {
+					TID.with(|c| c.set(t as i32));
+					INPUTS.with(|c| *c.borrow_mut() = (inputs, 0));
+					{
+						let mut g = lock_st();
+						while g.turn != t as i32 {
+							g = match CV.wait(g) {
+								Ok(x) => x,
+								Err(p) => p.into_inner(),
+							};
+						}
+					}
+					let r = std::panic::catch_unwind(f);
+					std::mem::forget(r);
+					let mut g = lock_st();
+					g.finished[t] = true;
+					println!("MT thread {} finished", t);
+					g.turn = -1;
+					CV.notify_all();
+				});
+			}
+			let give = |t: usize| {
+				let mut g = lock_st();
+				g.turn = t as i32;
+				CV.notify_all();
+				while g.turn != -1 {
+					g = match CV.wait(g) {
+						Ok(x) => x,
+						Err(p) => p.into_inner(),
+					};
+				}
+			};
+			// phase 1: every thread runs up to its breakpoint (or blocks / finishes earlier)
+			for t in 0..n {
+				give(t);
+			}
+			// phase 2: resume whoever can make progress
+			let mut steps = 0;
+			loop {
+				steps += 1;
+				let pick = {
+					let g = lock_st();
+					let mut p: i32 = -1;
+					for t in 0..n {
+						if g.finished[t] {
+							continue;
+						}
+						let id = g.parked[t];
+						if id < 0 {
+							continue;
+						}
+						if g.at_breakpoint[t] || can_take(&g, id as usize & 31, g.parked_shared[t], t as i32) {
+							p = t as i32;
+							break;
+						}
+					}
+					p
+				};
+				if pick < 0 || steps > 10000 {
+					break;
+				}
+				give(pick as usize);
+			}
+			let g = lock_st();
+			let mut all_done = true;
+			for t in 0..n {
+				if !g.finished[t] {
+					all_done = false;
+					println!("MT thread {} is blocked waiting for lock {} ({})", t, g.parked[t], if g.parked_shared[t] { "shared" } else { "exclusive" });
+				}
+			}
+			!all_done
 		}
 	}
 	pub fn dump() {
@@ -481,9 +699,9 @@ impl World {
 		}
 		b
 	}
-	fn note_wait(&self, id: u8) {
+	fn note_wait(&self, id: u8, shared: bool) {
 		self.wait_events.set(self.wait_events.get() + 1);
-		eng::event(E_WAIT, id as u32, self.held_x.get() | (self.held_s.get() << 8));
+		eng::event(E_WAIT, id as u32 | ((shared as u32) << 8), self.held_x.get() | (self.held_s.get() << 16));
 		if (self.held_x.get() | self.held_s.get()) & !self.wait_ok_mask.get() != 0 {
 			self.hold_and_wait.set(self.hold_and_wait.get() + 1);
 		}
@@ -555,6 +773,10 @@ unsafe impl lock_api::RawMutex for AuditMutex {
 	type GuardMarker = lock_api::GuardSend;
 
 	fn lock(&self) {
+		#[cfg(verif_replay)]
+		if eng::mt::on() {
+			return eng::mt::acquire(self.id.get(), false);
+		}
 		let w = w();
 		let id = self.id.get();
 		w.pre_op(K_LOCK_X, id);
@@ -562,7 +784,7 @@ unsafe impl lock_api::RawMutex for AuditMutex {
 		self.havoc();
 		match self.st.get() {
 			ST_T0 => w.note_self_wait(id),
-			ST_ENV => w.note_wait(id), // the holder releases eventually (premise), then granted
+			ST_ENV => w.note_wait(id, false), // the holder releases eventually (premise), then granted
 			_ => {}
 		}
 		self.st.set(ST_T0);
@@ -573,6 +795,10 @@ unsafe impl lock_api::RawMutex for AuditMutex {
 	}
 
 	fn try_lock(&self) -> bool {
+		#[cfg(verif_replay)]
+		if eng::mt::on() {
+			return eng::mt::try_acquire(self.id.get(), false);
+		}
 		let w = w();
 		let id = self.id.get();
 		w.pre_op(K_TRY_X, id);
@@ -589,6 +815,10 @@ unsafe impl lock_api::RawMutex for AuditMutex {
 	}
 
 	unsafe fn unlock(&self) {
+		#[cfg(verif_replay)]
+		if eng::mt::on() {
+			return eng::mt::release(self.id.get(), false);
+		}
 		let w = w();
 		let id = self.id.get();
 		w.pre_op(K_UNLOCK_X, id);
@@ -674,6 +904,10 @@ unsafe impl lock_api::RawRwLock for AuditRwLock {
 	type GuardMarker = lock_api::GuardSend;
 
 	fn lock_shared(&self) {
+		#[cfg(verif_replay)]
+		if eng::mt::on() {
+			return eng::mt::acquire(self.id.get(), true);
+		}
 		let w = w();
 		let id = self.id.get();
 		w.pre_op(K_LOCK_S, id);
@@ -684,7 +918,7 @@ unsafe impl lock_api::RawRwLock for AuditRwLock {
 			w.note_self_wait(id);
 		}
 		if self.x.get() == ST_ENV {
-			w.note_wait(id);
+			w.note_wait(id, true);
 			self.x.set(ST_FREE);
 		}
 		self.s0.set(self.s0.get() + 1);
@@ -695,6 +929,10 @@ unsafe impl lock_api::RawRwLock for AuditRwLock {
 	}
 
 	fn try_lock_shared(&self) -> bool {
+		#[cfg(verif_replay)]
+		if eng::mt::on() {
+			return eng::mt::try_acquire(self.id.get(), true);
+		}
 		let w = w();
 		let id = self.id.get();
 		w.pre_op(K_TRY_S, id);
@@ -711,6 +949,10 @@ unsafe impl lock_api::RawRwLock for AuditRwLock {
 	}
 
 	unsafe fn unlock_shared(&self) {
+		#[cfg(verif_replay)]
+		if eng::mt::on() {
+			return eng::mt::release(self.id.get(), true);
+		}
 		let w = w();
 		let id = self.id.get();
 		w.pre_op(K_UNLOCK_S, id);
@@ -728,6 +970,10 @@ unsafe impl lock_api::RawRwLock for AuditRwLock {
 	}
 
 	fn lock_exclusive(&self) {
+		#[cfg(verif_replay)]
+		if eng::mt::on() {
+			return eng::mt::acquire(self.id.get(), false);
+		}
 		let w = w();
 		let id = self.id.get();
 		w.pre_op(K_LOCK_X, id);
@@ -737,7 +983,7 @@ unsafe impl lock_api::RawRwLock for AuditRwLock {
 			w.note_self_wait(id);
 		}
 		if self.x.get() == ST_ENV || self.se.get() > 0 {
-			w.note_wait(id);
+			w.note_wait(id, false);
 			self.se.set(0);
 		}
 		self.x.set(ST_T0);
@@ -748,6 +994,10 @@ unsafe impl lock_api::RawRwLock for AuditRwLock {
 	}
 
 	fn try_lock_exclusive(&self) -> bool {
+		#[cfg(verif_replay)]
+		if eng::mt::on() {
+			return eng::mt::try_acquire(self.id.get(), false);
+		}
 		let w = w();
 		let id = self.id.get();
 		w.pre_op(K_TRY_X, id);
@@ -764,6 +1014,10 @@ unsafe impl lock_api::RawRwLock for AuditRwLock {
 	}
 
 	unsafe fn unlock_exclusive(&self) {
+		#[cfg(verif_replay)]
+		if eng::mt::on() {
+			return eng::mt::release(self.id.get(), false);
+		}
 		let w = w();
 		let id = self.id.get();
 		w.pre_op(K_UNLOCK_X, id);
